@@ -70,8 +70,12 @@ def yaml_dict(case):
 
 
 def _program(c):
-    return dict(t_tot=c["t_tot"], start=c["start"], stop=c["stop"], rate=c["rate"],
-                holds=c.get("holds"), cnTemp=c.get("cnTemp"), Frand=c.get("Frand"))
+    p = dict(t_tot=c["t_tot"], start=c["start"], stop=c["stop"], rate=c["rate"],
+             holds=c.get("holds"), cnTemp=c.get("cnTemp"), Frand=c.get("Frand"))
+    if c.get("reconfig") is not None:
+        # `S.configPath = <yaml with these entries merged in>` before this run
+        p["reconfig"] = c["reconfig"]
+    return p
 
 
 def programs(case):
@@ -80,6 +84,20 @@ def programs(case):
     for r in case.get("runs") or []:
         out.append(_program(r))
     return out
+
+
+def case_of_run(case, k):
+    """the case as a FRESH object would see run `k` of the history: programme `k` and the configuration in
+    force at that run (all re-configurations up to `k` merged in)"""
+    progs = programs(case)
+    c = {key: v for key, v in case.items() if key not in ("runs",)}
+    c.update({key: v for key, v in progs[k].items() if key != "reconfig"})
+    y = json.loads(json.dumps(case.get("yaml") or {}))
+    for pr in progs[1:k + 1]:
+        if pr.get("reconfig"):
+            _merge(y, json.loads(json.dumps(pr["reconfig"])))
+    c["yaml"] = y or None
+    return c
 
 
 def make_opcond(prog):
@@ -214,11 +232,22 @@ def run_real(case):
         if k > 0:
             try:
                 S.opcond = make_opcond(prog)
+                if prog.get("reconfig"):
+                    import yaml as _yaml
+
+                    fd, path = tempfile.mkstemp(suffix=".yaml", prefix="snowcfg_")
+                    try:
+                        with os.fdopen(fd, "w") as f:
+                            _yaml.safe_dump(yaml_dict(case_of_run(case, k)), f)
+                        S.configPath = path
+                    finally:
+                        os.unlink(path)
             except Exception as e:
                 obs["runs"].append({"raise": core.exc_class(e), "stage": "opcond"})
                 continue
         fr = prog.get("Frand")
         rec = {"Frand": fr if fr is not None else recorded_frand(0)}
+        rec["const"], rec["visf"] = constants(S)  # the configuration in force at THIS run
         with scripted_frand(fr):
             try:
                 with warnings.catch_warnings():
@@ -441,12 +470,12 @@ def record_inputs(case):
 
 
 def stride_cases():
-    """fixed 1D programmes with more than 10 000 steps (save strides 3 and 4) that freeze completely – shared by
+    """fixed 1D programmes with more than 10 000 steps (save strides 3 and 2) that freeze completely – shared by
     C08 (first crossing evaluated on EVERY step, not only on the recorded ones) and C13 (stride logic)"""
     h = 0.02
     dt = dt_1d_default(h)
     out = []
-    for k, rate, fr, n in ((2000, 0.5, 0.3, 21000), (400, 0.5, 0.7, 24000), (2000, 0.5, 0.05, 31000)):
+    for k, rate, fr, n in ((2000, 0.5, 0.3, 21000), (400, 0.5, 0.7, 24000), (2000, 0.5, 0.05, 15000)):
         out.append(dict(dim="1D", config="shelf", height=h, k_s0=k, t_tot=n * dt, start=20, stop=-50, rate=rate,
                         holds=None, cnTemp=None, Frand=fr, frkind="mid", kind="stride>1", row_stride=211))
     return out
@@ -516,3 +545,19 @@ def compare_2d(case, run, m, arrays=True):
                 dis.append(f"2D {name}[{j}]: impl vs model differ by {float(np.max(np.abs(a - b)))}")
                 break
     return dis
+
+
+def jacket_case():
+    """ONE 2D jacket run (side-wall cooling through a thin air gap: radial gradients in temperature and ice
+    fraction) shared by C08 and C13 - every step recorded (about 4500 steps)"""
+    return dict(dim="2D", config="jacket", height=0.04, diameter=0.04, yaml={"jacket": {"air_gap": 1e-4}}, k_s0=400,
+                t_tot=1500, start=20, stop=-40, rate=0.5, holds=None, cnTemp=None, Frand=0.37, frkind="mid",
+                kind="2D-jacket", row_stride=499)
+
+
+def cyl_weights(const):
+    """(w_z, w_r * 2 pi r): Simpson weights of the 30 x 15 grid with the cylindrical volume element"""
+    wz = simpson_weights(30, const["height"] / 29)
+    radius = const["diameter"] / 2
+    r = np.linspace(0, radius, 15)
+    return wz, simpson_weights(15, radius / 14) * 2 * np.pi * r
